@@ -7,13 +7,13 @@ from .. import linmodel
 VARIANTS = [dict(scale=1.0, precision='float64', delay_jitter=0.0),
             dict(scale=0.5, precision='float64', delay_jitter=0.25),
             dict(scale=0.25, precision='float32', delay_jitter=-0.25),
-            dict(scale=2.0, precision='float64', delay_jitter=0.25)]
+            dict(scale=2.0, precision='float64', delay_jitter=0.25, zero_spread=True)]      # Connectivity(..., spread=0.0) written out
 
 
 def job(j):
     case, v = j['case'], j['variant']
     return linmodel.run_model(case['m'], case['cfg'], scale=v['scale'], precision=v['precision'],
-                              delay_jitter=v['delay_jitter'], form=case['cfg'].get('form', 'nodes'))
+                              delay_jitter=v['delay_jitter'], form=case['cfg'].get('form', 'nodes'), zero_spread=v.get('zero_spread', False))
 
 
 def run(ctx):
